@@ -343,6 +343,41 @@ pub fn run(seed: u64, count: usize, maxn: usize, mode: &str, out: &mut impl Writ
         }
         return;
     }
+    if mode == "sawtooth" {
+        // Schedule probe: one long directed path numbered so that a parallel scan of the node
+        // indices meets a descending sawtooth of eccentricities; all nodes complete in the
+        // same SCC refinement step, and the radius (0, attained only by the sink) must not
+        // depend on how the threads interleave there.  The expected values follow from the
+        // construction, so the verdict is computed here (aspect "big", an UNPROVED probe:
+        // the graph is too large for the list-based checker).
+        let (period, teeth) = (128usize, 8usize);
+        let k = period * teeth;
+        let sink = k / 2 + 26;
+        let mut ecc: Vec<usize> = (0..k).map(|j| (period - 1 - (j % period)) * teeth + (teeth - 1 - j / period) + 1).collect();
+        ecc.insert(sink, 0);
+        let n = k + 1;
+        let mut idx = vec![0usize; n];
+        for (j, &e) in ecc.iter().enumerate() { idx[e] = j; }
+        let mut g: Graph = vec![Vec::new(); n];
+        for e in 1..n { g[idx[e]].push(idx[e - 1]); }
+        let (vg, vt) = (from_lists(&g), from_lists(&transpose(&g)));
+        for run in 0..count {
+            let use_tot = run % 2 == 0;
+            let t = if run % 4 == 3 { 16 } else { 4 };
+            let rd = run % 8 >= 4;
+            let res = catch(std::panic::AssertUnwindSafe(|| r.pools[t - 1].install(|| {
+                if rd { let o = ess::RadiusDiameter::run(&vg, &vt, None, use_tot, no_logging![]); (o.radius, o.radial_vertex, o.diameter) }
+                else { let o = ess::Radius::run(&vg, &vt, None, use_tot, no_logging![]); (o.radius, o.radial_vertex, n - 1) }
+            })));
+            let v = match res {
+                Err(m) => format!("FAIL(panic:{})", sanitize(&m)),
+                Ok((radius, rv, diam)) => if radius == 0 && rv == sink && diam == n - 1 { "ok".to_string() }
+                    else { format!("FAIL(radius:{radius};vertex:{rv};ecc-of-vertex:{};diameter:{diam};expected:0,{sink},{})", ecc.get(rv).copied().unwrap_or(usize::MAX), n - 1) },
+            };
+            writeln!(out, "essbig id=w{run} kind=sawtooth n={n} t={t} tot={} lvl={} verdict={v}", use_tot as u8, if rd { "rd" } else { "r" }).unwrap();
+        }
+        return;
+    }
     let thorough = mode == "rest";
     // exhaustive: all digraphs on <= 3 nodes (loops included)
     for n in 1..=3usize {
